@@ -48,6 +48,8 @@ AUDITED = {
     ("MutationSpace.py", "constrain_sequence", "sorted(variants)"): "sorted before the draw",
     ("MutationSpace.py", "constrain_sequence", "variants[0]"): "single-variant choice",
     ("MutationSpace.py", "from_optimization_problem", "set(choice[1])"): "construction of a set",
+    ("MutationSpace.py", "from_optimization_problem", "enumerate(underlying_choices)"): "a list (slice of the index), positions only (fix F20)",
+    ("MutationSpace.py", "from_optimization_problem", "set([sequence[choice.start + i]])"): "construction of a one-element set (fix F20)",
     ("MutationSpace.py", "from_optimization_problem", "set(underlying_choices)"): "merge_with sorts by start",
     ("MutationSpace.py", "from_optimization_problem", "sorted( [ MutationChoice(segment=choice[0], variants=set(choice[1])) for cst in constraints for choice in cst.restrict_nucleotides(sequence) ], key=lambda choice: (choice.end - choice.start, choice.start), )"): "stable sort of a list (constraint order is an input)",
     ("MutationSpace.py", "from_optimization_problem", "variants[c]"): "dict lookup by nucleotide",
